@@ -72,6 +72,7 @@ func runC06(c *Ctx) {
 	c.c06NothingCreatedForACopyThatWillBeRefused()
 	c.c06ClimbingLoopsStopAtTheFixedPoint()
 	c.c06MoveOntoItselfWhateverTheKind()
+	c.c06RelativePathsAreThoseOfTheReference()
 	c.c06CancellationIsReported()
 	if os.Getenv("GUCHECK_EXPLORE") == "forwarders" {
 		c.exploreForwarders()
@@ -2281,4 +2282,39 @@ func (c *Ctx) c06MoveOntoItselfWhateverTheKind() {
 	}
 	c.check(bad == "", "Z29", key, c.pos(mv.Pos()), "the comparison is made for files and directories alike",
 		"the guard asks what kind of thing the source is at "+bad+": a directory moved into the directory it already sits in (MoveBetweenFS(d/e, d)) is left to the backend's own 'same file' test, which the in-memory backend cannot make — the copy finds nothing to do, the source is then removed, and d/e is gone with its content while the OS backend leaves it alone")
+}
+
+// c06RelativePathsAreThoseOfTheReference (Z30): "the values returned by … path conversion are those of the reference model"
+// (filepath.Rel, i.e. realpath --relative-to). Every path ConvertToRelativePath hands back is what filepath.Rel answered:
+// a short cut that trims the root off a path which starts with its spelling does not stop at an element boundary — the
+// sibling `lib64/b.txt` of the root `lib` comes out as `64/b.txt`, inside the root.
+func (c *Ctx) c06RelativePathsAreThoseOfTheReference() {
+	c.rule("Z30", "every path ConvertToRelativePath returns is the result of filepath.Rel for that path: no element of the result is built by trimming or slicing", 1)
+	f := c.fnOpt(fsPkgRel, "(*VFS).ConvertToRelativePath")
+	if f == nil {
+		return
+	}
+	c.FuncsSeen[fname(f)] = true
+	bad := ""
+	n := 0
+	allInstrs(f, func(in ssa.Instruction) {
+		cl, ok := in.(*ssa.Call)
+		if !ok || calleeFull(&cl.Call) != "builtin.append" || len(cl.Call.Args) != 2 || cl.Call.Args[0].Type().String() != "[]string" {
+			return
+		}
+		for _, e := range variadicElems(cl.Call.Args[1]) {
+			n++
+			for _, l := range sources(e, deriveOpts{}) {
+				ex, ok := l.(*ssa.Extract)
+				if ok {
+					if k, isCall := ex.Tuple.(*ssa.Call); isCall && calleeFull(&k.Call) == "path/filepath.Rel" && ex.Index == 0 {
+						continue
+					}
+				}
+				bad = c.ipos(cl) + " (" + c.pos(l.Pos()) + ")"
+			}
+		}
+	})
+	c.check(n > 0 && bad == "", "Z30", fname(f)+"/what-filepath-rel-answered", c.pos(f.Pos()), "the paths returned are the results of filepath.Rel",
+		"a path appended to the result at "+bad+" is not what filepath.Rel answered: a short cut that trims the root's spelling off the front of a path does not stop at an element boundary — for the root `/t/lib`, `/t/lib64/b.txt` comes out as `64/b.txt` instead of `../lib64/b.txt`, and converting it back yields a path inside the root that does not exist")
 }
